@@ -43,6 +43,8 @@ type Profile struct {
 	Checkpoint   []string // audits run at checkpoints: queries, genesis, impostor, ids
 	RefuseKinds  []string // restrict must-refuse edits (prefix match on property), empty = all
 	SingleTxP    float64  // probability that a delivery gets a block of its own
+	EmptyFeeP    float64  // probability of a fee action with an empty list
+	InitLimitP   float64  // probability that the run starts by raising the passthrough limit
 	Replays      int      // C19: extra replays of each trace
 	// evidence / packaging
 	Level              string
@@ -68,6 +70,7 @@ type genState struct {
 	feeW     []int
 	scaleW   []int
 	gasCutP  float64
+	started  bool
 }
 
 func newGen(r *Rng, prof *Profile) *genState {
@@ -199,7 +202,7 @@ func (g *genState) genFees(s *Sim, A *big.Int) (has bool, fees []MFee) {
 	case 4:
 		n = 1 + r.Intn(3)
 	}
-	if r.Intn(25) == 0 {
+	if r.Bool(g.prof.EmptyFeeP) {
 		return true, nil // fee action with an empty list
 	}
 	budget := new(big.Int).Sub(A, big.NewInt(1)) // total must stay <= A-1
@@ -990,7 +993,7 @@ func (g *genState) genOrbiterAdmin(s *Sim) Op {
 	}
 	switch r.Intn(12) {
 	case 0, 1:
-		op.Msg, op.Proto = "PauseProtocol", protos[r.Intn(3)]
+		op.Msg, op.Proto = "PauseProtocol", protos[r.Intn(4)]
 	case 2, 3:
 		op.Msg, op.Proto = "UnpauseProtocol", protos[r.Intn(3)]
 		// prefer something that is paused
@@ -1127,6 +1130,21 @@ func (g *genState) genEnvAdmin(s *Sim) Op {
 func (g *genState) genDust(s *Sim) Op {
 	r := g.r
 	op := Op{ID: g.id(), K: "dust"}
+	if r.Intn(5) == 0 {
+		// a large deposit (>= 2^63) of the huge-supply denom, from whoever holds enough of it
+		two63, _ := sdkmath.NewIntFromString("9223372036854775808")
+		var names []string
+		for _, a := range append(append([]*Account{}, s.Env.Noble...), append(s.Env.Rcpt, s.Env.FeeRcpt...)...) {
+			if s.Ledger.Get(a.Addr.String(), DenomHuge).GTE(two63.MulRaw(4)) {
+				names = append(names, a.Name)
+			}
+		}
+		if len(names) > 0 {
+			op.Signer, op.Denom = names[r.Intn(len(names))], DenomHuge
+			op.Amt = []string{"9223372036854775808", "9223372036854775807", "18446744073709551616", "36893488147419103232"}[r.Intn(4)]
+			return op
+		}
+	}
 	op.Denom = []string{DenomUSDC, DenomUSDC, DenomOther, DenomStake}[r.Intn(4)]
 	op.Amt = []string{"1", "7", "1000", "123456789"}[r.Intn(4)]
 	return op
@@ -1135,6 +1153,12 @@ func (g *genState) genDust(s *Sim) Op {
 // Next generates the next op given the current world.
 func (g *genState) Next(s *Sim) Op {
 	r := g.r
+	if !g.started {
+		g.started = true
+		if r.Bool(g.prof.InitLimitP) {
+			return Op{ID: g.id(), K: "admin", Msg: "UpdateParams", N: uint64([]int{16, 64, 1000}[r.Intn(3)])}
+		}
+	}
 	kinds := sortedKeys(g.w)
 	for tries := 0; tries < 20; tries++ {
 		var ws []int
